@@ -71,6 +71,13 @@ class ConfigDict(ComposedNode, dict):
     def remove_child(self, name):
         return self._del(name)
 
+    @namespace('ayns')
+    def rename_child(self, old_name, new_name):
+        child = ComposedNode.ayns.rename_child(self, old_name, new_name)
+        dict.__delitem__(self, old_name)
+        dict.__setitem__(self, new_name, child)
+        return child
+
     def clear(self):
         ComposedNode.ayns.clear(self)
         dict.clear(self)
